@@ -53,6 +53,11 @@ VARIANTS = [
     {"pool": {"__pool__": 3, "wrapped": True}, "n_pool": 3,
      "likelihood_chunksize": 7},
     {"n_pool": 3, "parallelise_prior": True},
+    # "whether executed in the same or in different processes": the same
+    # process has executed another run (of the other sampler) before
+    {"__prelude__": True},
+    {"__prelude__": True, "n_pool": 2},
+    {"likelihood_chunksize": 3},
 ]
 
 
@@ -99,6 +104,12 @@ def members(g):
                # processes do), fixed per member so that the run is a
                # function of VERIF_SEED
                "env": {"PYTHONHASHSEED": 0 if i == 0 else 101 * i + 1}}
+        if v.get("__prelude__"):
+            # not a keyword argument: the member process first performs an
+            # unrelated run of the other sampler
+            job["kwargs"] = {k: w for k, w in kw.items()
+                             if k != "__prelude__"}
+            job["prelude"] = True
         out.append(job)
     return out
 
